@@ -17,7 +17,7 @@ import (
 )
 
 // C06 `eventsexh` harness (thorough tier only): EXHAUSTIVE small scope for the informer glue.  One cluster node with 4
-// CPUs (1 x 1 x 2 x 2), one pod at a time (a new UID after a delete), ALL applicable sequences of exactly 5 events over
+// CPUs (1 x 1 x 2 x 2), one pod at a time (a new UID after a delete), ALL applicable sequences of exactly 6 events over
 // the 14-letter alphabet
 //   topology -> valid | -> present without cpu topology | deleted;  add pending | add assigned+annotated;
 //   update: heartbeat | bind (nodeName + annotation) | phase Succeeded | allocation changed | nodeName cleared |
@@ -25,7 +25,7 @@ import (
 // through the real handlers, ledger dumped after every event; same oracle clauses as the random `events` harness
 // (recorded => live; fresh => recorded with its allocation; settled => ledger == the live pod's allocation).
 
-const c06EvExhDepth = 5
+const c06EvExhDepth = 6
 const c06EvExhAlphabet = 14
 
 func TestVerifC06EventsExh(t *testing.T) {
@@ -59,7 +59,7 @@ func TestVerifC06EventsExh(t *testing.T) {
 		idx++
 	}
 	h.Extra("exhaustive_sequences", idx)
-	h.Close("EXHAUSTIVE: every applicable sequence of 5 informer events over a 14-letter alphabet (3 topology events, 2 pod adds, 7 pod " +
+	h.Close("EXHAUSTIVE: every applicable sequence of 6 informer events over a 14-letter alphabet (3 topology events, 2 pod adds, 7 pod " +
 		"updates incl. a changed UID, 2 deletes) for one node with 4 CPUs and one pod at a time; non-trivial = the pod was recorded at some point and " +
 		"left the ledger again")
 }
